@@ -13,6 +13,10 @@
 (* Variant = "asbuilt"        every pass listens for Delay after its last probe (the code)                               *)
 (*           "delayOnlyLast"  only the last pass waits (seeded change C16-m3): LateReplyReported must fail                *)
 (*           "timerAtStart"   the delay timer is armed when the pass starts (seeded change C08-m4): DelayHonoured fails   *)
+(*           "passAfterCancel" the chunk loop does not look at the cancellation between passes (finding F18, as found):       *)
+(*                            NoPassAfterCancel must fail                                                               *)
+(* Cancel is Ctrl-C: nothing more is opened, at most InFlight probes that were already being built still leave, the      *)
+(* running pass is closed without waiting for its exit delay and the run is over.                                        *)
 (* AttachAtomic = FALSE models the window between socket open and filter attach of the AF_PACKET source (finding F14):   *)
 (* NoForeign must fail.                                                                                                  *)
 EXTENDS Integers, FiniteSets, Sequences
@@ -21,49 +25,60 @@ CONSTANTS ChunkKeys,        \* sequence of sets: the (address, port) keys each p
           Acc(_, _),        \* Acc(f, ch): frame f is reply-shaped under the filter of pass ch
           Rec(_, _),        \* Rec(f, ch): the record printed for f
           Delay, Lat,       \* exit delay; upper bound on the time from wire to output of an accepted frame
-          MaxT, Variant, AttachAtomic
-VARIABLES c, phase, sentN, now, openT, lastSend, queue, out, hist, closeT
-vars == <<c, phase, sentN, now, openT, lastSend, queue, out, hist, closeT>>
+          MaxT, Variant, AttachAtomic, InFlight
+VARIABLES c, phase, sentN, now, openT, lastSend, queue, out, hist, closeT, cancelled
+vars == <<c, phase, sentN, now, openT, lastSend, queue, out, hist, closeT, cancelled>>
 NChunks == Len(ChunkKeys)
 AllKeys == UNION {ChunkKeys[i] : i \in 1..NChunks}
 Phases == {"closed", "opened", "sending", "listening", "done"}
 Init == /\ c = 0 /\ phase = "closed" /\ sentN = [k \in AllKeys |-> 0] /\ now = 0 /\ openT = 0 /\ lastSend = 0
-        /\ queue = {} /\ out = <<>> /\ hist = {} /\ closeT = <<>>
+        /\ queue = {} /\ out = <<>> /\ hist = {} /\ closeT = <<>> /\ cancelled = [on |-> FALSE, t |-> 0, sends |-> 0]
 \* nothing moves time beyond the moment an accepted frame must have been printed
 NoOverdue(t) == \A q \in queue : t <= q.t + Lat
 Adv(t) == t >= now /\ NoOverdue(t) /\ now' = t
 \* a pass starts: socket opened (and, atomically or not, its filter attached)
-Open(t) == /\ phase = "closed" /\ c < NChunks /\ Adv(t)
+Open(t) == /\ phase = "closed" /\ c < NChunks /\ Adv(t) /\ (cancelled.on => Variant = "passAfterCancel")
            /\ c' = c + 1 /\ phase' = (IF AttachAtomic THEN "sending" ELSE "opened") /\ openT' = t /\ lastSend' = t
-           /\ UNCHANGED <<sentN, queue, out, hist, closeT>>
+           /\ UNCHANGED <<sentN, queue, out, hist, closeT, cancelled>>
 Attach(t) == /\ phase = "opened" /\ Adv(t) /\ phase' = "sending"
-             /\ UNCHANGED <<c, sentN, openT, lastSend, queue, out, hist, closeT>>
+             /\ UNCHANGED <<c, sentN, openT, lastSend, queue, out, hist, closeT, cancelled>>
 \* one probe of the current pass reaches the wire
 Send(k, t) == /\ phase = "sending" /\ k \in ChunkKeys[c] /\ sentN[k] = 0 /\ Adv(t)
+              /\ (cancelled.on => cancelled.sends < InFlight)
+              /\ cancelled' = (IF cancelled.on THEN [cancelled EXCEPT !.sends = @ + 1] ELSE cancelled)
               /\ sentN' = [sentN EXCEPT ![k] = 1] /\ lastSend' = t
               /\ UNCHANGED <<c, phase, openT, queue, out, hist, closeT>>
 \* the engine signals done: every probe of the pass has been handed to the wire
 FinishSending == /\ phase = "sending" /\ \A k \in ChunkKeys[c] : sentN[k] = 1
-                 /\ phase' = "listening" /\ UNCHANGED <<c, sentN, now, openT, lastSend, queue, out, hist, closeT>>
+                 /\ phase' = "listening" /\ UNCHANGED <<c, sentN, now, openT, lastSend, queue, out, hist, closeT, cancelled>>
 \* a frame arrives on the wire. It reaches the processor iff a socket is open and (its filter being attached) accepts it.
 SocketOpen == phase \in {"opened", "sending", "listening"}
 Arrive(f, t) == /\ phase # "done" /\ Adv(t)
                 /\ LET acc == SocketOpen /\ (phase = "opened" \/ Acc(f, c)) IN
                    /\ queue' = IF acc THEN queue \cup {[f |-> f, t |-> t, ch |-> c]} ELSE queue
                    /\ hist' = hist \cup {[f |-> f, t |-> t, ch |-> c, acc |-> acc, shaped |-> SocketOpen /\ Acc(f, c), answers |-> c >= 1 /\ Acc(f, c)]}
-                /\ UNCHANGED <<c, phase, sentN, openT, lastSend, out, closeT>>
+                /\ UNCHANGED <<c, phase, sentN, openT, lastSend, out, closeT, cancelled>>
 \* receiver -> processor -> result channel -> logger: the record of an accepted frame is printed
 Emit(q) == /\ q \in queue /\ queue' = queue \ {q} /\ out' = Append(out, [r |-> Rec(q.f, q.ch), f |-> q.f, t |-> q.t, ch |-> q.ch])
-            /\ UNCHANGED <<c, phase, sentN, now, openT, lastSend, hist, closeT>>
+            /\ UNCHANGED <<c, phase, sentN, now, openT, lastSend, hist, closeT, cancelled>>
 \* the exit delay is over: the pass is cancelled, its socket closed; what is still queued is lost
 CloseAllowed(t) == CASE Variant = "asbuilt" -> t >= lastSend + Delay
                      [] Variant = "delayOnlyLast" -> c < NChunks \/ t >= lastSend + Delay
                      [] Variant = "timerAtStart" -> t >= openT + Delay
-Close(t) == /\ phase = "listening" /\ Adv(t) /\ CloseAllowed(t)
+Close(t) == /\ phase = "listening" /\ ~cancelled.on /\ Adv(t) /\ CloseAllowed(t)
             /\ phase' = (IF c = NChunks THEN "done" ELSE "closed") /\ queue' = {} /\ closeT' = Append(closeT, [t |-> t, last |-> lastSend])
-            /\ UNCHANGED <<c, sentN, openT, lastSend, out, hist>>
+            /\ UNCHANGED <<c, sentN, openT, lastSend, out, hist, cancelled>>
+\* Ctrl-C, and what follows it: the running pass (if any) is closed at once; no further pass is started (unless the variant says so)
+Cancel(t) == /\ ~cancelled.on /\ phase # "done" /\ Adv(t) /\ cancelled' = [on |-> TRUE, t |-> t, sends |-> 0]
+             /\ UNCHANGED <<c, phase, sentN, openT, lastSend, queue, out, hist, closeT>>
+Abort(t) == /\ cancelled.on /\ phase \in {"opened", "sending", "listening"} /\ Adv(t)
+            /\ phase' = (IF Variant = "passAfterCancel" /\ c < NChunks THEN "closed" ELSE "done") /\ queue' = {}
+            /\ closeT' = Append(closeT, [t |-> t, last |-> lastSend])
+            /\ UNCHANGED <<c, sentN, openT, lastSend, out, hist, cancelled>>
+Finish(t) == /\ cancelled.on /\ phase = "closed" /\ Variant # "passAfterCancel" /\ Adv(t) /\ phase' = "done"
+             /\ UNCHANGED <<c, sentN, openT, lastSend, queue, out, hist, closeT, cancelled>>
 Times == now..(IF now < MaxT THEN now + 1 ELSE now)
-Next == \E t \in Times : \/ Open(t) \/ Attach(t) \/ Close(t)
+Next == \E t \in Times : \/ Open(t) \/ Attach(t) \/ Close(t) \/ Cancel(t) \/ Abort(t) \/ Finish(t)
                          \/ \E k \in AllKeys : Send(k, t)
                          \/ \E f \in Frames : [f |-> f] \notin {[f |-> h.f] : h \in hist} /\ Arrive(f, t)     \* each frame arrives at most once
         \/ FinishSending \/ \E q \in queue : Emit(q)
@@ -71,14 +86,18 @@ Spec == Init /\ [][Next]_vars
 ----------------------------------------------------------------------------
 TypeOK == /\ c \in 0..NChunks /\ phase \in Phases /\ now \in 0..MaxT /\ sentN \in [AllKeys -> 0..1]
 \* C01 at the wire: when the run is over every key of every pass was sent exactly once; keys of later passes never early
-CoverageAtDone == phase = "done" => \A k \in AllKeys : sentN[k] = 1
+CoverageAtDone == (phase = "done" /\ ~cancelled.on) => \A k \in AllKeys : sentN[k] = 1
+\* C12: after Ctrl-C no pass is started, and at most InFlight probes still leave
+NoPassAfterCancel == [][cancelled.on => c' = c]_vars
+FewSendsAfterCancel == cancelled.sends <= InFlight
 InOrder == \A i \in 1..NChunks : (i > c => \A k \in ChunkKeys[i] \ UNION {ChunkKeys[j] : j \in 1..c} : sentN[k] = 0)
 \* C16: a pass is closed no earlier than Delay after its last probe
-DelayHonoured == [][(phase = "listening" /\ phase' # "listening") => now' >= lastSend + Delay]_vars
+DelayHonoured == [][(phase = "listening" /\ phase' # "listening" /\ ~cancelled.on) => now' >= lastSend + Delay]_vars
 \* C16 / C03: a frame that answers a probe of the most recent pass (reply-shaped under that pass's filter) and arrives earlier than
 \* Delay - Lat after that pass's last probe has been printed when the pass is closed
 LateReplyReported ==
-   \A h \in hist : (h.answers /\ h.ch <= Len(closeT) /\ h.t >= closeT[h.ch].last /\ h.t + Lat < closeT[h.ch].last + Delay)
+   \A h \in hist : (h.answers /\ h.ch <= Len(closeT) /\ h.t >= closeT[h.ch].last /\ h.t + Lat < closeT[h.ch].last + Delay
+                    /\ ~(cancelled.on /\ cancelled.t <= closeT[h.ch].last + Delay))
                    => \E i \in 1..Len(out) : out[i].f = h.f /\ out[i].t = h.t
 \* C03: nothing is printed but records of frames that were reply-shaped for the pass running at their arrival, each at most once
 NoForeign == \A i \in 1..Len(out) : \E h \in hist : h.f = out[i].f /\ h.t = out[i].t /\ h.shaped /\ out[i].r = Rec(h.f, h.ch)
